@@ -129,12 +129,10 @@ impl Dominance for TD {
     fn nb_dimensions(&self, _: &DS) -> usize {
         2
     }
+    // (order-preserving image of the small abstract coordinate reaching the ends of the isize range)
     fn get_coordinate(&self, s: &DS, i: usize) -> isize {
-        if i == 0 {
-            s.1 as isize
-        } else {
-            s.2 as isize
-        }
+        let c = if i == 0 { s.1 as isize } else { s.2 as isize };
+        (c - 2) * (isize::MAX / 2)
     }
     fn use_value(&self) -> bool {
         self.use_value
@@ -209,6 +207,9 @@ fn stores(args: &[String], out: &mut dyn Write) {
         writeln!(out, "{}", json!({"ev":"reset","uv":uv,"run":run})).unwrap();
         for op in seq {
             let i = |k: usize| op[k].as_i64().unwrap();
+            // a panic of the code under test is data: logged, and the run ends
+            let res = std::panic::catch_unwind(std::panic::AssertUnwindSafe(|| {
+            let out: &mut dyn Write = &mut *out;
             match op[0].as_str().unwrap() {
                 "upd" => {
                     let st = op[2].as_str().unwrap();
@@ -244,6 +245,11 @@ fn stores(args: &[String], out: &mut dyn Write) {
                     writeln!(out, "{}", json!({"ev":"dclear_layer","depth":i(1)})).unwrap();
                 }
                 o => panic!("unknown op {o}"),
+            }
+            }));
+            if res.is_err() {
+                writeln!(out, "{}", json!({"ev":"panic","store": if op[0].as_str().unwrap().starts_with('q') || op[0].as_str().unwrap().starts_with('d') { "dominance" } else { "cache" }, "op": op})).unwrap();
+                break;
             }
         }
     }
@@ -520,12 +526,10 @@ impl Dominance for HTD {
     fn nb_dimensions(&self, _: &DS) -> usize {
         2
     }
+    // (order-preserving image of the small abstract coordinate reaching the ends of the isize range)
     fn get_coordinate(&self, s: &DS, i: usize) -> isize {
-        if i == 0 {
-            s.1 as isize
-        } else {
-            s.2 as isize
-        }
+        let c = if i == 0 { s.1 as isize } else { s.2 as isize };
+        (c - 2) * (isize::MAX / 2)
     }
     fn use_value(&self) -> bool {
         self.use_value
